@@ -64,7 +64,7 @@ CLAIMS.update({
    tech="TLA+ reference placement; TLC enumeration of all bounded rings replayed into the real code; TLC validation of recorded vectors", ref="DESIGN.md section 7 C10"),
  "C11": dict(cat="model_checking",
    text="Policies.tla states the property predicates on an offered host sequence (finite, only up hosts, no duplicates, every known up host, tier-monotone, token-aware: nearest-tier up replicas first - primary first unless shuffling - then farther-tier replicas with non-local fallback, then the rest; rotation over successive picks) using Topology.tla's reference placement. TLC enumerates bounded cluster states x 15 policy/option combinations x routing-token classes; the real policy objects are driven (successive picks, add/remove/up/down histories, a concurrent safety run) and TLC evaluates the predicates on the REAL sequences; a differing but admissible order is drift only.",
-   note="Bounded clusters (<=5 hosts, 2 DCs x 2 racks); where keyspace metadata is unavailable both readings of 'replica' are accepted; HostPoolHostPolicy is not covered; the concurrent run checks safety only (no panic, no nil host) on sampled schedules.",
+   note="Bounded clusters (<=5 hosts, 2 DCs x 2 racks); where keyspace metadata is unavailable both readings of 'replica' are accepted; HostPoolHostPolicy is not covered; worlds include a host that owns no token, and a host is reported down in the middle of recorded plans; the concurrent run checks safety only (no panic, no nil host) on sampled schedules.",
    tech="TLA+ predicates evaluated by TLC on host sequences recorded from the real policies; TLC enumeration of bounded cluster states replayed into the real code", ref="DESIGN.md section 7 C11"),
  "C12": dict(cat="exploration",
    text="Cql.tla (on BigNum.tla, self-tested by ASSUME) defines the native-protocol encoding of every CQL type byte for byte (fixed widths, minimal varint, decimal, date with floor, time, timestamp, duration vints, inet, both collection framings, tuple/UDT with -1 for null). TLC generates boundary cases (every width's min/max/+-1, sign-extension edges, 2^63, 2^64-1, big varints/decimals, NaN payloads, pre-epoch dates, vint length boundaries, null/empty/zero, nesting <= 2, protocol 2 and 4) with the expected bytes or the expected refusal; Marshal/Unmarshal of the real code are run on them, and seeded random vectors recorded from the real code are judged by TLC in both directions (bytes = Enc(v); Dec(bytes) = v).",
